@@ -75,3 +75,17 @@ Theorem C11_ristretto_accepted_elements_are_curve_points : forall (K : Kernel) b
   r_element_from_bytes K bs = Ok P -> valid P.
 Proof. exact r_element_from_bytes_valid. Qed.
 Print Assumptions C11_ristretto_accepted_elements_are_curve_points.
+
+(* ... and the accepted string is THE canonical encoding of that point: ENCODE (DECODE bs) = bs (RFC 9496), so decoding is
+   injective and an accepted element re-serialises to exactly the bytes it came from. [bytes_ok]: every list entry is a
+   byte. Proofs/RistrettoCanon.v — rests on the proved completeness of SQRT_RATIO_M1 (Proofs/SqrtRatio.v). *)
+From Strand Require Import Proofs.CodecP Proofs.SqrtRatio Proofs.RistrettoCanon.
+Theorem C11_ristretto_accepted_encoding_is_canonical : forall (K : Kernel) bs P, bytes_ok bs ->
+  r_element_from_bytes K bs = Ok P -> compress K P = bs.
+Proof. exact r_element_bytes_canonical. Qed.
+Print Assumptions C11_ristretto_accepted_encoding_is_canonical.
+
+Theorem C11_ristretto_decoding_injective : forall (K : Kernel) bs1 bs2 P, bytes_ok bs1 -> bytes_ok bs2 ->
+  decompress K bs1 = Some P -> decompress K bs2 = Some P -> bs1 = bs2.
+Proof. exact decompress_injective. Qed.
+Print Assumptions C11_ristretto_decoding_injective.
